@@ -10,7 +10,8 @@ from .evidence import Evidence, match_known, save_replay
 
 FAMS_Q = ["chain3p", "diamondp", "pullchain2", "pullring", "pullringtail", "wsum", "wsumback", "pulltwice"]
 FAMS_T = FAMS_Q
-EXTENDED = {"avail", "served", "served-notify", "choice", "update-raised", "delay-shift", "canon"}
+EXTENDED = {"avail", "served", "served-notify", "choice", "update-raised", "delay-shift", "canon",
+            "false-cycle", "false-cycle-zone", "cycle-not-reported"}
 
 
 def check(pid, tier):
